@@ -924,8 +924,11 @@ def run(rep):
     try:
         exe = common.build_driver('builder')
         out = common.run_driver(exe, [model_line(c) for c in cases])
+        rep.cov['model_out_of_domain'] = 0
         for k in range(len(cases)):
             mobs = parse_model(out[k])
+            if mobs.get('raise') == 'OutOfDomain':
+                rep.cov['model_out_of_domain'] += 1
             for s in range(len(HASH_SEEDS)):
                 d = compare(obs[k][s], mobs)
                 if d:
